@@ -20,13 +20,16 @@ HP = "src/helpers.rs"
 DATA = "src/hyperloglog/data.rs"
 
 
-def M(prop, name, edits, rule, construct=""):
+def M(prop, name, edits, rule, construct="", base=None):
     if edits is None:
         return
     if isinstance(edits, tuple):
         edits = [edits]
-    SPECS.append({"property": prop, "kind": "mutant", "name": name, "rule": rule, "construct": construct,
-                  "edits": [{"file": f, "old": o, "new": n} for f, o, n in edits]})
+    spec = {"property": prop, "kind": "mutant", "name": name, "rule": rule, "construct": construct,
+            "edits": [{"file": f, "old": o, "new": n} for f, o, n in edits]}
+    if base:
+        spec["base"] = base      # the edit is applied on top of this behaviour-preserving refactoring (path under /verif)
+    SPECS.append(spec)
 
 
 def B(prop, name, edits):
@@ -277,6 +280,32 @@ B("C04", "limit-helper", [(TD, "        let mut q_limit = self.scale_function.f_
                           (TD, "                q_limit = self.scale_function.f_inv(\n                    self.scale_function.f(q_0, self.n_samples) + 1.,\n                    self.n_samples,\n                );", "                q_limit = self.limit_after(q_0);"),
                           (TD, "    #[inline(always)]\n    fn interpolate(", "    fn limit_after(&self, q_0: f64) -> f64 {\n        self.scale_function.f_inv(\n            self.scale_function.f(q_0, self.n_samples) + 1.,\n            self.n_samples,\n        )\n    }\n\n    #[inline(always)]\n    fn interpolate(")])
 B("C04", "criterion-flipped", (TD, "            if q <= q_limit {\n                current = current.fuse(&next);\n            } else {", "            if q_limit >= q {\n                current = current.fuse(&next);\n            } else {"))
+
+# ======================================================================================= mutants of refactored variants
+# (benign/B8..B14 are independent behaviour-preserving refactorings; the recognisers that were generalised to accept them must
+#  still tell a broken variant from a correct one)
+LCF = "src/topk/lossycounter.rs"
+HLLS = "src/hyperloglog/serde.rs"
+HU = "src/hash_utils.rs"
+M("C14", "v8-find-range-short", (CF, "(offset..(offset + self.bucketsize)).find(", "(offset..(offset + self.bucketsize - 1)).find("), "R14-siblings", "", base="benign/B8/patch.diff")
+M("C14", "v8-remove-matches-free-slot", (CF, "        match self.find_in_bucket(i, f) {\n            Some(x) => {\n                self.table.set(x as u64, 0);", "        match self.find_in_bucket(i, 0) {\n            Some(x) => {\n                self.table.set(x as u64, 0);"), "R14-siblings", "remove_from_bucket", base="benign/B8/patch.diff")
+M("C06", "v8-union-bucket-by-modulo", (CF, "let i1 = counter / other.bucketsize;", "let i1 = counter % other.bucketsize;"), "R06-cuckoo-transfer", "union", base="benign/B8/patch.diff")
+M("C13", "v9-present-always-true", (QF, "present = r == remainder;", "present = true;"), "R13-scan-results", "scan", base="benign/B9/patch.diff")
+M("C13", "v9-no-equality-stop", (QF, "if r >= remainder {", "if r > remainder {"), "R13-scan", "scan", base="benign/B9/patch.diff")
+M("C06", "v10-merge-keeps-own-cell", (CMS, "merged.push(mine.checked_add(theirs).unwrap());", "merged.push(mine.checked_add(&C::zero()).unwrap());"), "R06-merge-cellwise", "merge", base="benign/B10/patch.diff")
+M("C08", "v10-setup-f-skips-first", (HU, "        for i in 0..k {", "        for i in 1..k {"), "R08-double-hashing", "setup_f", base="benign/B10/patch.diff")
+M("C17", "v11-merge-min", (HLL, "*mine = cmp::max(*mine, theirs);", "*mine = cmp::min(*mine, theirs);"), "R17-max-only", "merge", base="benign/B11/patch.diff")
+M("C17", "v11-clear-fill-one", (HLL, "self.registers.fill(0);", "self.registers.fill(1);"), "R17-max-only", "clear", base="benign/B11/patch.diff")
+M("C20", "v11-len-check-one-sided", (HLLS, "if m != len {", "if m < len {"), "R20-guarded-construction", "visit_map", base="benign/B11/patch.diff")
+M("C15", "v12-cum-starts-at-zero", (TD, "let mut cum = c_first.count;", "let mut cum = 0.;"), "R15-knots", "quantile", base="benign/B12/patch.diff")
+M("C16", "v12-skip-two", (TD, "for next in x.into_iter().skip(1) {", "for next in x.into_iter().skip(2) {"), "R16-conservation", "merge", base="benign/B12/patch.diff")
+M("C15", "v12-cdf-offset-from-rank", (TD, "let t = (x - lo.0) / delta;", "let t = (x - lo.1) / delta;"), "R15-knots", "cdf", base="benign/B12/patch.diff")
+M("C09", "v13-occupied-adds-two", (LCF, ".and_modify(|value| value.f += 1)", ".and_modify(|value| value.f += 2)"), "R09-new-entry", "add", base="benign/B13/patch.diff")
+M("C09", "v13-prune-keeps-boundary", (LCF, "if b_current < v.f + v.delta {", "if b_current <= v.f + v.delta {"), "R09-prune", "add", base="benign/B13/patch.diff")
+M("C09", "v13-query-strict", (LCF, "if v.f >= bound {", "if v.f > bound {"), "R09-query", "query", base="benign/B13/patch.diff")
+M("C09", "v13-flag-set-on-known-key", [(LCF, ".and_modify(|value| value.f += 1)", ".and_modify(|value| {\n                value.f += 1;\n                was_new = true;\n            })"), (LCF, "                was_new = true;\n                KnownEntry {", "                KnownEntry {")], "R09-new-entry", "add", base="benign/B13/patch.diff")
+M("C01", "v14-insert-short-circuits", (BF, ".fold(true, |acc, pos| acc & bs.put(pos));", ".fold(true, |acc, pos| acc && bs.put(pos));"), "R01-bloom-same-positions", "insert", base="benign/B14/patch.diff")
+M("C10", "v14-removes-new-count", (CH, "                    n: old,\n", "                    n: old + 1,\n"), "R10-paired", "add", base="benign/B14/patch.diff")
 
 
 def main():
